@@ -1311,3 +1311,49 @@ def c19_records(case):
         ev["exc"] = type(e).__name__
         ev["exc_msg"] = str(e)[:200]
     return {"events": [ev]}
+
+
+# ---------------------------------------------------------------------------
+# C06: tract parsing is compositional
+
+_LOTNUM = re.compile(r"L(\d+)$")
+
+
+def _c06_obs(text, suppress, table):
+    import pytrs
+    t = pytrs.Tract(text, parse_qq=True, config="suppress_lot_divs" if suppress else None)
+    lots = list(t.lots)
+    return {"lots": [_intern(table, "lot:" + x) for x in lots], "qqs": [_intern(table, "qq:" + x) for x in t.qqs],
+            "lots_qqs": [_intern(table, ("lot:" if x in lots else "qq:") + x) for x in t.lots_qqs],
+            "ilots": list(t.ilots),
+            "lotnums": [int(_LOTNUM.search(x).group(1)) if _LOTNUM.search(x) else -1 for x in lots],
+            "dup_lot": any(isinstance(f, str) and f.startswith("dup_lot<") for f in t.w_flags),
+            "dup_qq": any(isinstance(f, str) and f.startswith("dup_qq<") for f in t.w_flags),
+            "raw_lots": lots, "raw_qqs": list(t.qqs), "acres": dict(t.lot_acres)}
+
+
+def c06(case):
+    a = case["args"]
+    table = {}
+    try:
+        whole = _c06_obs(a["text"], a["suppress"], table)
+        parts = []
+        for el in a["elements"]:
+            p = _c06_obs(el["text"], a["suppress"], table)
+            div_ok = True
+            if el["kind"] == "DIV":
+                pre = el["div_prefix"]
+                if a["suppress"]:
+                    div_ok = all(re.fullmatch(r"L\d+", x) for x in p["raw_lots"]) and len(p["raw_lots"]) == el["nlots"]
+                else:
+                    div_ok = all(x.startswith(pre + " of L") for x in p["raw_lots"]) and len(p["raw_lots"]) == el["nlots"]
+            parts.append({"lots": p["lots"], "qqs": p["qqs"], "div_ok": div_ok, "raw": (p["raw_lots"], p["raw_qqs"])})
+        acres_ok = True
+        for lot, ac in a["acres"].items():
+            if whole["acres"].get(lot) != ac:
+                acres_ok = False
+        return {"exc": "none", "whole": {k: v for k, v in whole.items() if not k.startswith("raw") and k != "acres"},
+                "parts": parts, "acres_ok": acres_ok,
+                "raw": {"lots": whole["raw_lots"], "qqs": whole["raw_qqs"], "acres": whole["acres"]}}
+    except Exception as e:  # noqa
+        return _exc(e)
